@@ -323,6 +323,16 @@ func zzC17_honest(which int) {
 		verifAssert(bAnd(!ok, err == nil), "identity key 2 is rejected")
 		ok, err = SPOCKVerify(IdentityBLSPublicKey(), g1Serialization, IdentityBLSPublicKey(), g1Serialization)
 		verifAssert(bAnd(!ok, err == nil), "identity keys with identity proofs are rejected")
+		// identity keys with arbitrary proofs (also when both keys are the identity, where the pairing relation
+		// alone would hold trivially), identity keys obtained by decoding
+		idDec, derr := DecodePublicKey(BLSBLS12381, IdentityBLSPublicKey().Encode())
+		verifAssert(derr == nil, "the identity key decodes")
+		ok, err = SPOCKVerify(IdentityBLSPublicKey(), p1, idDec, p2)
+		verifAssert(bAnd(!ok, err == nil), "two identity keys are rejected whatever the proofs")
+		ok, err = SPOCKVerify(idDec, p1, IdentityBLSPublicKey(), g1Serialization)
+		verifAssert(bAnd(!ok, err == nil), "two identity keys are rejected with one identity proof")
+		ok, err = SPOCKVerify(IdentityBLSPublicKey(), g1Serialization, pk2, p2)
+		verifAssert(bAnd(!ok, err == nil), "an identity key with the identity proof is rejected next to an honest pair")
 		ok, err = SPOCKVerify(pk1, g1Serialization, pk2, g1Serialization)
 		verifAssert(bAnd(ok, err == nil), "two identity proofs satisfy the pairing relation (consistent with the exactly-when of the property)")
 	case 4:
@@ -442,6 +452,24 @@ func zzC04_aggregate(n int, pattern int) {
 	assertEqBytes(aggSk.PublicKey().Encode(), aggPk.Encode(), "same encoding")
 	s2, _ := aggSk.Sign(msg, h)
 	assertEqBytes(aggSig, s2, "aggregate of the signatures = signature by the aggregated private key")
+	// the result does not depend on hidden state of the inputs: private key objects whose public key was / was
+	// not computed before (none, only the last, only the first)
+	for mode := 0; mode < 3; mode++ {
+		fresh := make([]PrivateKey, n)
+		for i := 0; i < n; i++ {
+			xi := xs[i]
+			fresh[i] = newPrKeyBLSBLS12381(&xi)
+		}
+		if mode == 1 {
+			_ = fresh[n-1].PublicKey()
+		} else if mode == 2 {
+			_ = fresh[0].PublicKey()
+		}
+		a3, err := AggregateBLSPrivateKeys(fresh)
+		verifAssert(err == nil, "AggregateBLSPrivateKeys on fresh key objects")
+		verifAssert(a3.Equals(aggSk), "same aggregated private key whatever was cached in the inputs")
+		verifAssert(a3.PublicKey().Equals(aggPk), "public key of the aggregated private key = aggregate of the public keys, whatever was cached in the inputs")
+	}
 	// order independence (reverse) and nesting (aggregate of aggregates)
 	rs := make([]Signature, n)
 	rp := make([]PublicKey, n)
@@ -582,6 +610,50 @@ func zzC02_many(n, keyPat, msgPat int, twoTags bool) {
 		verifAssert(bOr(aggPk.(*pubKeyBLSBLS12381).isIdentity, ok1 == ok), "OneMessage agrees with ManyMessages when the aggregated key is not the identity")
 	}
 	verifReach("many messages")
+}
+
+// zzC02_wide: sizes that cross the internal batching boundaries (multi-pairing batches of 8, per-key hash groups):
+// shape 0: ONE key signs m distinct messages (one group of m hashes on the per-distinct-key path);
+// shape 1: m distinct keys sign ONE message (one group of m keys on the per-distinct-message path);
+// shape 2: m distinct keys sign m distinct messages (m pairs, tie between the two paths).
+// The candidate is the aggregate + delta*g1: accepted exactly when delta = 0.
+func zzC02_wide(m, shape int) {
+	h := testHasher("many-tag")
+	var x0 scalar
+	nondetFrStar(&x0)
+	pks := make([]PublicKey, m)
+	ms := make([][]byte, m)
+	hs := make([]hash.Hasher, m)
+	sigs := make([]Signature, m)
+	b := nondetByte()
+	for i := 0; i < m; i++ {
+		xi := x0
+		if shape != 0 {
+			nondetFrStar(&xi)
+		}
+		sk := newPrKeyBLSBLS12381(&xi)
+		pks[i] = sk.PublicKey()
+		if shape == 1 {
+			ms[i] = []byte{0, 0, b}
+		} else {
+			ms[i] = []byte{byte(i), byte(i >> 8), b}
+		}
+		hs[i] = h
+		sigs[i], _ = sk.Sign(ms[i], h)
+	}
+	agg, err := AggregateBLSSignatures(sigs)
+	verifAssert(err == nil, "aggregation")
+	var delta scalar
+	nondetFr(&delta)
+	var dG, cand pointE1
+	generatorScalarMultG1(&dG, &delta)
+	addE1(&cand, decodeSigPoint(agg), &dG)
+	cb := make([]byte, g1BytesLen)
+	writePointE1(cb, &cand)
+	ok, err := VerifyBLSSignatureManyMessages(pks, cb, ms, hs)
+	verifAssert(err == nil, "no error for well-formed inputs")
+	verifAssert(ok == delta.isZero(), "ManyMessages accepts exactly the aggregate of the individual signatures (wide input)")
+	verifReach("many messages wide")
 }
 
 // zzC02_cancel: keys x and -x on one message: the keys cancel, the aggregate is the identity signature;
@@ -898,6 +970,50 @@ func zzC06_stateful(n, t, set int, badKind int, trusted bool) {
 		verifAssert(bAnd(trusted, badKind > 0), "reconstruction only fails if an invalid share was added with TrustedAdd")
 		verifReach("stateful rejected")
 	}
+}
+
+// zzC06_stateful_mixed: a well-formed but wrong share added through TrustedAdd, the threshold reached with valid
+// trusted shares, then further VALID shares offered through VerifyAndAdd (verified, not stored because enough were
+// collected, the last one offered twice): ThresholdSignature must still refuse (the reconstruction does not
+// verify under the group key) -- on every call -- and never return or cache an unverified signature.
+func zzC06_stateful_mixed(n, t int) {
+	seed := nondetBytes(KeyGenSeedMinLen)
+	sks, pks, gpk, _ := BLSThresholdKeyGen(n, t, seed)
+	assumeNoZeroShare(pks, gpk)
+	msg := nondetBytes(2)
+	ts, err := NewBLSThresholdSignatureInspector(gpk, pks, t, msg, "thr-tag")
+	verifAssert(err == nil, "inspector constructor")
+	h := testHasher("thr-tag")
+	shares := make([]Signature, n)
+	for i := range shares {
+		shares[i], _ = sks[i].Sign(msg, h)
+	}
+	verifAssume(!sks[0].Equals(sks[1]))
+	// signer 0 is credited with the share of signer 1 (well-formed, in G1, wrong)
+	_, err = ts.TrustedAdd(0, shares[1])
+	verifAssert(err == nil, "TrustedAdd of a wrong share is not an error")
+	for i := 1; i <= t; i++ {
+		_, err = ts.TrustedAdd(i, shares[i])
+		verifAssert(err == nil, "TrustedAdd of a valid share")
+	}
+	verifAssert(ts.EnoughShares(), "threshold reached")
+	for k := 0; k < 2; k++ {
+		for i := t + 1; i < n; i++ {
+			valid, enough, err := ts.VerifyAndAdd(i, shares[i])
+			verifAssert(bAnd(valid, bAnd(enough, err == nil)), "a valid late share verifies; enough shares were already collected")
+			has, _ := ts.HasShare(i)
+			verifAssert(!has, "a late share is not retained")
+		}
+	}
+	for k := 0; k < 2; k++ {
+		sig, err := ts.ThresholdSignature()
+		verifAssert(bAnd(sig == nil, err != nil), "ThresholdSignature never returns a signature that does not verify under the group key")
+		if sig != nil {
+			ok, _ := gpk.Verify(sig, msg, h)
+			verifAssert(ok, "a returned threshold signature verifies under the group key")
+		}
+	}
+	verifReach("stateful mixed")
 }
 
 func zzC06_errors() {
